@@ -209,6 +209,12 @@ def Ext (s s' : State) : Prop :=
 
 theorem Ext.refl (s : State) : Ext s s := ⟨fun _ => rfl, fun _ => rfl, rfl⟩
 
+theorem Ext.symm' {s s' : State} (e : Ext s s') : Ext s' s :=
+  ⟨fun x => (e.1 x).symm, fun p => (e.2.1 p).symm, e.2.2.symm⟩
+
+theorem Ext.trans' {s s' s'' : State} (e : Ext s s') (f : Ext s' s'') : Ext s s'' :=
+  ⟨fun x => (e.1 x).trans (f.1 x), fun p => (e.2.1 p).trans (f.2.1 p), e.2.2.trans f.2.2⟩
+
 theorem Ext.cnt {s s' : State} (e : Ext s s') (p : Nat) : cnt U s p = cnt U s' p := by
   unfold Morfuse.Str.cnt
   apply List.countP_congr
